@@ -162,6 +162,9 @@ def run(ctx):
     data = fits.make_data(rng, d=int(rng.integers(2, 6)))
     X, d = data['X'], data['d']
     X = fits.grid(X, 4)
+    if i % 4 == 1:
+      X = X * 2.0 ** -17                # features in a small unit (within-chunk covariances of the order 1e-10): the problem is the same
+      ctx.hist('rca.units', '2^-17')
     chunks = data['chunks']
     nchunks = int(chunks.max()) + 1
     chunks_given = chunks
@@ -178,6 +181,8 @@ def run(ctx):
     dim = nc[int(rng.integers(0, len(nc)))]
     if i % 3 == 0 and d >= 2:
       dim = int(rng.integers(1, d))            # reduced case
+    if i % 4 == 1:
+      dim = [None, d][(i // 4) % 2]            # small units: without reduction (the whole inverse square root is used)
     X_before = X.copy()
     ctx.count('rca_fits', 1)
     try:
@@ -224,6 +229,10 @@ def run(ctx):
     d = int(rng.integers(2, 5))
     sizes = [int(rng.integers(3, 9)) for _ in range(ncls)]
     sizes[0] = int(rng.integers(6, 12))
+    if i % 3 == 1:
+      sizes.append(1)                  # a class with a single point (no same-class neighbour; it still counts between classes)
+      ncls += 1
+      ctx.hist('lfda.singleton_class', True)
     data = fits.make_data(rng, d=d, n_classes=ncls, n_per_class=sizes)
     X, y = data['X'], data['y']
     k = int(rng.integers(1, d + 2))
